@@ -8,7 +8,6 @@ from harness import core, py2v, py2v_ext
 ID = 'C27'
 TITLE = 'Row id allocation never collides or creates ghost rows'
 PROPS = ['Props/C27']
-VARIANT = os.environ.get('VERIF_C27_VARIANT', 'current')   # 'fixed' once notes/proposed_fixes/C27-rowid-validation.diff is applied
 RULE = ('cases = (table row-id set, AddRecord | BulkAddRecord | ReplaceTableData, list of requested ids); ids drawn '
         'from None, negative, explicit fresh, explicit existing, repeated, 0, 1000000, > 1000000; row sets are random '
         'subsets of 1..9 (plus removed "ghost" rows above the maximum, and a few with row 1000000); thorough adds '
@@ -24,25 +23,16 @@ ASSUMPTIONS = ['requested ids are None or Python ints (bools, floats, strings ar
                'an automatic id may exceed 1,000,000 when the table already holds row 1,000,000: the limit is read as '
                'a limit on requested ids']
 
-BINDINGS = {
-  'current': {
-    'params': [('row_ids', ('L', ('O', 'Z'))), ('next_row_id', 'Z')],
-    'returns': ('L', ('O', 'Z')),
-    'result': 'filled_row_ids',
-    'fragment': {'starts_with_assign_to': 'filled_row_ids'},
-    'coq_name': 'fill_row_ids',
-  },
-  # the validation loop + the filling loop of the proposed patch
-  'fixed': {
-    'params': [('row_ids', ('L', ('O', 'Z'))), ('next_row_id', 'Z')],
-    'returns': ('L', ('O', 'Z')),
-    'result': 'filled_row_ids',
-    'fragment': {'starts_with_assign_to': 'filled_row_ids', 'extend_back_to_assign_to': 'seen'},
-    'locals': {'seen': ('S', 'Z')},
-    'coq_name': 'fill_row_ids',
-  },
+# the validation loop + the filling loop of doBulkAddOrReplace
+BINDING = {
+  'params': [('row_ids', ('L', ('O', 'Z'))), ('next_row_id', 'Z')],
+  'returns': ('L', ('O', 'Z')),
+  'result': 'filled_row_ids',
+  'fragment': {'starts_with_assign_to': 'filled_row_ids', 'extend_back_to_assign_to': 'seen'},
+  'locals': {'seen': ('S', 'Z')},
+  'coq_name': 'fill_row_ids',
 }
-MODEL_FN = {'current': 'do_bulk_add_or_replace', 'fixed': 'do_bulk_add_or_replace_fixed'}
+MODEL_FN = 'do_bulk_add_or_replace'
 MAXID = 1000000
 
 
@@ -50,9 +40,9 @@ MAXID = 1000000
 def regenerate(ctx):
   try:
     text, seg = py2v_ext.translate_fragment(os.path.join(core.GRIST, 'useractions.py'),
-                                            'UserActions.doBulkAddOrReplace', BINDINGS[VARIANT])
+                                            'UserActions.doBulkAddOrReplace', BINDING)
   except py2v.Untranslatable as e:
-    raise core.TieBroken('the id-filling loop of doBulkAddOrReplace is outside the translated subset: %s' % e)
+    raise core.TieBroken('the validation/id-filling loops of doBulkAddOrReplace are outside the translated subset: %s' % e)
   ctx._c27_fragment = seg
   core.write_if_changed(os.path.join(core.COQ, 'gen', 'RowIds_gen.v'), text)
 
@@ -110,7 +100,7 @@ def gen_req(rng, rows, n=None):
 def gen_cases(ctx):
   rng = ctx.rng
   cases = []
-  # the candidate findings of DESIGN 2.3 and their neighbours, always
+  # corpus, always run first: the witnesses of the defects repaired by fix e346da4 (DESIGN 2.3) and their neighbours
   fixed = [([], 'BulkAddRecord', [5, 5]), ([], 'BulkAddRecord', [0]), ([1, 2], 'BulkAddRecord', [None, 3, None]),
            ([1, 2], 'BulkAddRecord', [None, None, 3]), ([1, 2], 'BulkAddRecord', [2]), ([1, 2], 'AddRecord', [2]),
            ([1, 2], 'BulkAddRecord', [MAXID + 1]), ([1, 2], 'AddRecord', [0]), ([1, 2], 'AddRecord', [None]),
@@ -119,7 +109,7 @@ def gen_cases(ctx):
            ([1, 2], 'ReplaceTableData', []), ([3], 'BulkAddRecord', []), ([1, 2], 'BulkAddRecord', [4, 3, None]),
            ([2, 5], 'BulkAddRecord', [-1, -1, -2]), ([1, 2], 'ReplaceTableData', [MAXID + 1, None])]
   for rows, act, req in fixed:
-    cases.append({'rows': rows, 'ghosts': [], 'action': act, 'req': req})
+    cases.append({'rows': rows, 'ghosts': [], 'action': act, 'req': req, 'corpus': True})
   # a few expensive ones around the limit (each costs ~1 s in the engine: columns grow to 10^6 cells)
   big = [([1, 2], 'BulkAddRecord', [MAXID, None]), ([MAXID], 'BulkAddRecord', [None]),
          ([1], 'BulkAddRecord', [None, MAXID]), ([MAXID], 'BulkAddRecord', [MAXID]),
@@ -302,9 +292,9 @@ def correspond(ctx):
     idx.append(n)
   bad = ctx.run_cases('engine', ['Grist.Lib.PyPrelude', 'Grist.Lib.PyMonad', 'Grist.Model.RowIds'],
                       'fun c => outcome_eqb (%s (fst (fst (fst c))) (snd (fst (fst c))) (snd (fst c))) (snd c)'
-                      % MODEL_FN[VARIANT], coq, shard=1500)
+                      % MODEL_FN, coq, shard=1500)
   for i in bad[:5]:
-    ctx.broken('correspondence:Model/RowIds.%s differs from the engine' % MODEL_FN[VARIANT],
+    ctx.broken('correspondence:Model/RowIds.%s differs from the engine' % MODEL_FN,
                'case %r -> %r' % (cases[idx[i]], ctx._c27_results[idx[i]]))
 
 
@@ -380,8 +370,8 @@ def search(ctx):
       continue
     kind, what = v
     ctx.bump('oracle:' + kind)
-    # keep the smallest witness of each kind
-    key = (len(case['req']), len(case['rows']))
+    # keep, for each kind, a corpus witness if there is one, else the smallest
+    key = (0 if case.get('corpus') else 1, len(case['req']), len(case['rows']))
     if kind not in seen or key < seen[kind][0]:
       seen[kind] = (key, what, {'rows': case['rows'], 'ghosts': case.get('ghosts', []), 'action': case['action'],
                                 'req': case['req'],
@@ -424,12 +414,13 @@ MATCHERS = {
                                         any(r is None or r < 0 for r in req) and honoured(req, ret)),
 }
 
-TECHNIQUE = ('Coq proof over the id-filling loop translated from source on every run (py2v_ext) + hand model of the '
-             'row-id set and doc action, differential cases against the real engine + impl oracle')
-LEVEL_TEXT = ('Kernel-checked: the translated loop equals Model/RowIds.fill; on the unchanged code the full statements are '
-              'refuted (three witnesses, replayed on the engine: repeated explicit id, explicit 0, automatic id '
-              'colliding with a later explicit id) and proved under the exact hypotheses excluding them; both full '
-              'statements are proved for the repaired loop of notes/proposed_fixes/C27-rowid-validation.diff.')
+TECHNIQUE = ('Coq proof over the validation and id-filling loops translated from source on every run (py2v_ext) + hand '
+             'model of the row-id set and doc action, differential cases against the real engine + impl oracle')
+LEVEL_TEXT = ('Kernel-checked: the translated loops equal Model/RowIds.alloc; for every table state and request an accepted '
+              'AddRecord/BulkAddRecord/ReplaceTableData returns distinct ids that did not exist, honours explicit ids, '
+              'gives automatic ids above every existing id, and leaves exactly existing + returned rows; a request with '
+              'an explicit id that is 0, repeats, exceeds 1,000,000 or (adds) exists is rejected; usable requests are '
+              'accepted. No hypothesis on the request (since fix e346da4; the old witnesses are regression cases).')
 LEVEL_NOTE = ('Trusted: Coq kernel, py2v_ext translator (validated each run), the hand model of next_row_id / '
               'BulkAddRecord / ReplaceTableData on the row-id set (compared with the engine each run). Rollback after '
-              'a rejected request is observed on the engine, not modelled. Three known findings.')
+              'a rejected request is observed on the engine, not modelled.')
